@@ -197,7 +197,7 @@ class C10(Check):
     assumptions = ["fake streams fail their pending connect future on close(), like IOStream"]
 
     def partitions(self, tier):
-        N = 3 if tier == "quick" else 4
+        N = 3 if tier == "quick" else 5
         sc = list(scenarios(N, True))
         return [(N, s, 48) for s in range(48)]
 
